@@ -85,6 +85,9 @@ func runCase(c Case, st *Stats) *ev.Failure {
 	clk := glue.NewHClock(t0)
 	col := glue.NewColEnc("udp", collector.DecodingModeStrict, clk, uint32(c.TTL), c.Encrypted)
 	ttl := time.Duration(c.TTL) * time.Second
+	if c.TTL == 0 { // not configured: the documented default of 1800 s applies
+		ttl = 1800 * time.Second
+	}
 	model := map[glue.TplKey]*mtpl{}
 	firedUnfinished := map[glue.TplKey]bool{} // a timer of the key fired and its callback has not finished
 	decode := func(i int, pkt []byte, k glue.TplKey) (glue.DecodeResult, *ev.Failure) {
@@ -339,7 +342,11 @@ func TestC10(t *testing.T) {
 		rec.Extra("alphabet_size", len(alphabet))
 	}
 	ev.Rapid(t, rec, "random", rec.Scale(4000, 3000000), func(t *rapid.T) Case {
-		c := Case{TTL: rapid.SampledFrom([]int{100, 100, 1, 1800}).Draw(t, "ttl"), Encrypted: rapid.IntRange(0, 3).Draw(t, "enc") == 0}
+		c := Case{TTL: rapid.SampledFrom([]int{100, 100, 1, 1800, 0}).Draw(t, "ttl"), Encrypted: rapid.IntRange(0, 3).Draw(t, "enc") == 0}
+		eff := c.TTL
+		if eff == 0 {
+			eff = 1800
+		}
 		for n := rapid.IntRange(2, 60).Draw(t, "n"); n > 0; n-- {
 			switch k := rapid.IntRange(0, 13).Draw(t, "op"); {
 			case k <= 2:
@@ -349,7 +356,7 @@ func TestC10(t *testing.T) {
 			case k <= 5:
 				c.Ops = append(c.Ops, Op{Kind: "data", Key: rapid.IntRange(0, 3).Draw(t, "key")})
 			case k <= 8:
-				c.Ops = append(c.Ops, Op{Kind: "adv", D: rapid.SampledFrom([]int{0, 1, c.TTL - 1, c.TTL, c.TTL, 2 * c.TTL, c.TTL / 2}).Draw(t, "d")})
+				c.Ops = append(c.Ops, Op{Kind: "adv", D: rapid.SampledFrom([]int{0, 1, eff - 1, eff, eff, 2 * eff, eff / 2}).Draw(t, "d")})
 			case k <= 10:
 				c.Ops = append(c.Ops, Op{Kind: "start", Idx: rapid.IntRange(0, 3).Draw(t, "idx")})
 			case k <= 12:
